@@ -163,6 +163,21 @@ func CodecCorpus(packageRoot string, seed int64, nRandom int) *Schema {
 		{Name: "own", Type: P("bool")},
 	}})
 	s.Add(&Named{Ident: Ident{"IncNoOwnFields", ns}, Kind: "record", Includes: []Ident{{"Inner", ns}}})
+	// defaults reached through an included record that has no default of its own: the including record's constructor
+	// and decoder must still populate the nested record's defaults
+	s.Add(&Named{Ident: Ident{"NestedDef", ns}, Kind: "record", Fields: []Field{
+		{Name: "level", Type: P("int32"), Default: sp("7")}, {Name: "tag", Type: P("string"), Default: sp(`"t"`)},
+	}})
+	s.Add(&Named{Ident: Ident{"PlainHolder", ns}, Kind: "record", Fields: []Field{
+		{Name: "hid", Type: P("int64"), Optional: true}, {Name: "inner", Type: R(ns, "NestedDef")}, {Name: "inners", Type: A(R(ns, "NestedDef")), Optional: true},
+	}})
+	s.Add(&Named{Ident: Ident{"ViaPlain", ns}, Kind: "record", Includes: []Ident{{"PlainHolder", ns}}, Fields: []Field{
+		{Name: "count", Type: P("int32"), Default: sp("3")},
+	}})
+	s.Add(&Named{Ident: Ident{"ViaPlainNoDefaults", ns}, Kind: "record", Includes: []Ident{{"PlainHolder", ns}}, Fields: []Field{
+		{Name: "plain", Type: P("string")},
+	}})
+	s.Add(&Named{Ident: Ident{"ViaViaPlain", ns}, Kind: "record", Includes: []Ident{{"ViaPlain", ns}}})
 	// include lattices: a root with r required fields, an intermediate record adding m, and several siblings
 	// including the intermediate one (and one including two intermediates), each with own required fields:
 	// the required-field sets / default tables of siblings must not influence each other
